@@ -14,6 +14,9 @@ import (
 	"encoding/json"
 	"fmt"
 	"os"
+	"os/exec"
+	"path/filepath"
+	"sort"
 	"strconv"
 	"strings"
 	"time"
@@ -22,36 +25,19 @@ import (
 	"github.com/tetratelabs/wazero/api"
 	"github.com/tetratelabs/wazero/experimental"
 	"github.com/tetratelabs/wazero/internal/verif/vsched"
+	"github.com/tetratelabs/wazero/verif/checks/c10/lib"
 	"github.com/tetratelabs/wazero/verif/fw"
 	"github.com/tetratelabs/wazero/verif/wb"
 )
 
 // ---------------------------------------------------------------- scenario language
 
-// Op kinds. ref: "M0"/"M1" = module pre-instantiated before the threads start; "mine" = the module
-// returned by the previous inst/hostInst of the same thread.
-type Op struct {
-	K    string `json:"k"`              // inst hostInst lookup close closeCode isClosed rtClose rtCloseCode compile hostCompile
-	Name string `json:"name,omitempty"` // module name
-	Ref  string `json:"ref,omitempty"`
-}
+type (
+	Op       = lib.Op
+	Scenario = lib.Scenario
+)
 
-func (o Op) String() string {
-	s := o.K
-	if o.Name != "" || o.K == "inst" || o.K == "lookup" || o.K == "hostInst" {
-		s += "(" + strconv.Quote(o.Name) + ")"
-	}
-	if o.Ref != "" {
-		s += "(" + o.Ref + ")"
-	}
-	return s
-}
-
-type Scenario struct {
-	Label   string   `json:"label"`
-	Pre     []string `json:"pre"` // names of modules instantiated before the threads start (M0, M1)
-	Threads [][]Op   `json:"threads"`
-}
+func scenarios(thorough bool) []Scenario { return lib.Scenarios(thorough) }
 
 type Case struct {
 	Scn    Scenario `json:"scenario"`
@@ -706,104 +692,6 @@ func exploreCase(c Case, deadline time.Time) *result {
 
 // ---------------------------------------------------------------- scenarios
 
-func scenarios(thorough bool) []Scenario {
-	var out []Scenario
-	add := func(label string, pre []string, threads ...[]Op) {
-		out = append(out, Scenario{Label: label, Pre: pre, Threads: threads})
-	}
-	I := func(n string) Op { return Op{K: "inst", Name: n} }
-	H := func(n string) Op { return Op{K: "hostInst", Name: n} }
-	L := func(n string) Op { return Op{K: "lookup", Name: n} }
-	C := func(r string) Op { return Op{K: "close", Ref: r} }
-	CC := func(r string) Op { return Op{K: "closeCode", Ref: r} }
-	Q := func(r string) Op { return Op{K: "isClosed", Ref: r} }
-	RC := Op{K: "rtClose"}
-	RCC := Op{K: "rtCloseCode"}
-	CM := Op{K: "compile"}
-	HC := Op{K: "hostCompile"}
-	a := []string{"a"}
-	// two instantiations of one name
-	add("inst-a||inst-a", nil, []Op{I("a")}, []Op{I("a")})
-	add("inst-a;look||inst-a;look", nil, []Op{I("a"), L("a")}, []Op{I("a"), L("a")})
-	add("inst-a||host-a", nil, []Op{I("a")}, []Op{H("a")})
-	add("inst-a;close||inst-a", nil, []Op{I("a"), C("mine")}, []Op{I("a")})
-	add("inst-a;close||inst-a;close", nil, []Op{I("a"), C("mine")}, []Op{I("a"), C("mine")})
-	add("inst-a||inst-b||look-a", nil, []Op{I("a")}, []Op{I("b")}, []Op{L("a")})
-	add("inst-anon||inst-anon", nil, []Op{I("")}, []Op{I("")})
-	add("inst-anon;close||inst-a;close", nil, []Op{I(""), C("mine")}, []Op{I("a"), C("mine")})
-	// close vs lookup
-	add("close-M0||look-a", a, []Op{C("M0")}, []Op{L("a")})
-	add("close-M0||isclosed;look", a, []Op{C("M0")}, []Op{Q("M0"), L("a")})
-	add("close-M0||look;isclosed", a, []Op{C("M0")}, []Op{L("a"), Q("M0")})
-	add("closeCode-M0||isclosed;look", a, []Op{CC("M0")}, []Op{Q("M0"), L("a")})
-	// close vs re-instantiate
-	add("close-M0||inst-a", a, []Op{C("M0")}, []Op{I("a")})
-	add("close-M0||inst-a;look", a, []Op{C("M0")}, []Op{I("a"), L("a")})
-	add("close-M0;inst-a||look-a", a, []Op{C("M0"), I("a")}, []Op{L("a")})
-	add("close-M0||isclosed;inst-a", a, []Op{C("M0")}, []Op{Q("M0"), I("a")})
-	add("close-M0||inst-a||look-a", a, []Op{C("M0")}, []Op{I("a")}, []Op{L("a")})
-	// failed duplicate instantiate must not disturb the owner
-	add("inst-a(dup)||look-a", a, []Op{I("a")}, []Op{L("a")})
-	add("inst-a(dup);look||inst-a(dup)", a, []Op{I("a"), L("a")}, []Op{I("a")})
-	add("inst-a(dup);inst-a(dup)||look-a", a, []Op{I("a"), I("a")}, []Op{L("a")})
-	// double close
-	add("close-M0||close-M0", a, []Op{C("M0")}, []Op{C("M0")})
-	add("close-M0||closeCode-M0||isclosed", a, []Op{C("M0")}, []Op{CC("M0")}, []Op{Q("M0")})
-	add("close-M0;close-M0||look-a", a, []Op{C("M0"), C("M0")}, []Op{L("a")})
-	// two modules
-	add("close-M0||close-M1", []string{"a", "b"}, []Op{C("M0")}, []Op{C("M1")})
-	add("close-M0||close-M1||look-a;look-b", []string{"a", "b"}, []Op{C("M0")}, []Op{C("M1")}, []Op{L("a"), L("b")})
-	// runtime close
-	add("rtclose||inst-a", nil, []Op{RC}, []Op{I("a")})
-	add("rtclose||inst-a;isclosed", nil, []Op{RC}, []Op{I("a"), Q("mine")})
-	add("rtclose||inst-anon;isclosed", nil, []Op{RC}, []Op{I(""), Q("mine")})
-	add("rtclose||look-a", a, []Op{RC}, []Op{L("a")})
-	add("rtclose||close-M0", a, []Op{RC}, []Op{C("M0")})
-	add("rtclose||isclosed;look", a, []Op{RC}, []Op{Q("M0"), L("a")})
-	add("rtclose||rtclosecode", a, []Op{RC}, []Op{RCC})
-	add("rtclose||compile", nil, []Op{RC}, []Op{CM})
-	add("rtclose||hostcompile", nil, []Op{RC}, []Op{HC})
-	add("rtclose||host-a", nil, []Op{RC}, []Op{H("a")})
-	add("rtclose;compile||inst-a", nil, []Op{RC, CM}, []Op{I("a")})
-	add("rtclose;hostcompile", nil, []Op{RC, HC}, []Op{L("a")})
-	add("rtclose;host-a||look-a", nil, []Op{RC, H("a")}, []Op{L("a")})
-	add("rtclose||inst-a||close-M0", a, []Op{RC}, []Op{I("b")}, []Op{C("M0")})
-	add("compile||compile", nil, []Op{CM}, []Op{CM})
-	add("host-a||host-a", nil, []Op{H("a")}, []Op{H("a")})
-	add("host-a;close||inst-a", nil, []Op{H("a"), C("mine")}, []Op{I("a")})
-	add("close-M0||inst-a;isclosed-M0", a, []Op{C("M0")}, []Op{I("a"), Q("M0")})
-	add("close-M0||look-a;isclosed-M0||inst-a", a, []Op{C("M0")}, []Op{L("a"), Q("M0")}, []Op{I("a")})
-	if thorough {
-		// every 2-thread scenario with <=2 ops per thread over a reduced alphabet, with M0="a" pre-instantiated
-		alpha := []Op{I("a"), I(""), L("a"), C("M0"), Q("M0"), RC, CM, H("a")}
-		var progs [][]Op
-		for _, x := range alpha {
-			progs = append(progs, []Op{x})
-			for _, y := range alpha {
-				progs = append(progs, []Op{x, y})
-			}
-		}
-		for i, p := range progs {
-			for j := i; j < len(progs); j++ {
-				q := progs[j]
-				if len(p)+len(q) > 3 {
-					continue
-				}
-				add(fmt.Sprintf("gen:%v||%v", p, q), a, p, q)
-			}
-		}
-		// three threads x 1 op
-		for i := range alpha {
-			for j := i; j < len(alpha); j++ {
-				for k := j; k < len(alpha); k++ {
-					add(fmt.Sprintf("gen3:%v||%v||%v", alpha[i], alpha[j], alpha[k]), a, []Op{alpha[i]}, []Op{alpha[j]}, []Op{alpha[k]})
-				}
-			}
-		}
-	}
-	return out
-}
-
 func buildCases(run *fw.Run) []Case {
 	var cases []Case
 	bound := 3
@@ -882,6 +770,7 @@ func main() {
 			run.Violation(v.Sig, fmt.Sprintf("[%s/%s] %s", c.Engine, c.Scn.Label, v.What), map[string]any{"case": c, "schedule": v.Prefix, "history": v.Hist})
 		}
 	})
+	racePass := runRacePass(run)
 	if run.Expired() {
 		run.Capped("budget")
 	}
@@ -890,10 +779,10 @@ func main() {
 	}
 	run.Finish(fw.Coverage{
 		Evaluations: schedules, DistinctNontriv: int64(len(distinct)), States: points + schedules, Transitions: points, TracesValidated: schedules,
-		Rule: "one evaluation = one complete schedule of a scenario executed on the real wazero.Runtime under the cooperative scheduler; schedules are enumerated by DFS over choice sequences with the stated preemption bound; distinct_nontrivial = distinct (scenario, engine, per-thread result vector) outcomes observed; states = scheduling decisions visited + terminal states, transitions = scheduling decisions with >1 enabled thread",
+		Rule:    "one evaluation = one complete schedule of a scenario executed on the real wazero.Runtime under the cooperative scheduler; schedules are enumerated by DFS over choice sequences with the stated preemption bound; distinct_nontrivial = distinct (scenario, engine, per-thread result vector) outcomes observed; states = scheduling decisions visited + terminal states, transitions = scheduling decisions with >1 enabled thread",
 		Samples: samples.List(), Exhaustive: true, Outcomes: outcomes.Map(),
 		Bounds: map[string]any{"scenarios": len(cases) / 2, "engines": 2, "preemption_bound": cases[0].Bound, "max_choice_points_in_one_schedule": maxPts},
-		Extra:  map[string]any{"per_scenario": perCase},
+		Extra:  map[string]any{"per_scenario": perCase, "race_pass_secondary_monitor": racePass},
 	}, []string{
 		"scheduling points are the sync/atomic operations of runtime.go, cache.go, internal/wasm/{store,table,module}.go, wazevo/engine.go, interpreter/interpreter.go (before acquire/CAS/load, after release) plus operation boundaries; plain unsynchronised accesses between them are atomic for the explorer and are looked for by the separate free-running -race pass (scripts/race.sh c10)",
 		"sequential consistency is assumed for the hooked atomics (Go's memory model gives this for sync/atomic)",
@@ -931,4 +820,60 @@ func replay(path string) {
 		os.Exit(1)
 	}
 	fmt.Println("passes")
+}
+
+// runRacePass runs the free-running -race variant (built by scripts/check.sh without the shim) and
+// summarises the distinct data races the detector reported. Secondary monitor: it never affects the
+// verdict, because a free-running detector is a sampler, not an exhaustive explorer.
+func runRacePass(run *fw.Run) map[string]any {
+	bin := os.Getenv("VERIF_RACE_BIN")
+	if bin == "" {
+		return map[string]any{"ran": false, "why": "no -race binary"}
+	}
+	dir, err := os.MkdirTemp("", "c10race")
+	if err != nil {
+		return map[string]any{"ran": false, "why": err.Error()}
+	}
+	defer os.RemoveAll(dir)
+	iters := "40"
+	if run.Thorough() {
+		iters = "400"
+	}
+	cmd := exec.Command(bin, iters)
+	cmd.Env = append(os.Environ(), "GORACE=log_path="+dir+"/race exitcode=0 halt_on_error=0")
+	out, err := cmd.CombinedOutput()
+	res := map[string]any{"ran": true, "summary": strings.TrimSpace(lastLine(string(out)))}
+	if err != nil {
+		res["error"] = err.Error() + ": " + firstWords(string(out))
+	}
+	// distinct races keyed by the first wazero frame of each of the two accesses
+	distinct := map[string]int{}
+	files, _ := filepath.Glob(dir + "/race*")
+	for _, f := range files {
+		b, _ := os.ReadFile(f)
+		for _, rep := range strings.Split(string(b), "WARNING: DATA RACE")[1:] {
+			var frames []string
+			for _, blk := range strings.SplitN(rep, "\n\n", 3) {
+				for _, ln := range strings.Split(blk, "\n") {
+					t := strings.TrimSpace(ln)
+					if strings.HasPrefix(t, "github.com/tetratelabs/wazero") && !strings.Contains(t, "/verif/") {
+						frames = append(frames, strings.TrimPrefix(t, "github.com/tetratelabs/wazero"))
+						break
+					}
+				}
+				if len(frames) == 2 {
+					break
+				}
+			}
+			sort.Strings(frames)
+			distinct[strings.Join(frames, " <-> ")]++
+		}
+	}
+	res["distinct_races"] = distinct
+	return res
+}
+
+func lastLine(s string) string {
+	ls := strings.Split(strings.TrimSpace(s), "\n")
+	return ls[len(ls)-1]
 }
